@@ -111,7 +111,8 @@ def main(chk):
         preopens = [T] + r.sample([os.path.join(T, 'sub'), os.path.join(T, 'other'), os.path.join(T, 'sub', 'deep') + '/'], r.randint(0, 2))
         abi = r.choice(['p1', 'un'])
         g = wasih.Guest(plan, ARENA, abi=abi)
-        g.instantiate(preopens=preopens)
+        # some pre-opens are registered with a native directory descriptor opened by the embedder (wasiFileDescriptorAdd(fd >= 0, path))
+        g.instantiate(preopens=preopens, native=set(i for i in range(len(preopens)) if r.random() < 0.3))
         checks = []  # (kind, output index, expectation, detail)
         g.poke(0x2000, b'zz')
         g.poke(0x2100, b'zy')
